@@ -311,8 +311,8 @@ SPEC = {
     "youtube": dict(
         hosts=["https://www.youtube.com", "youtube.com", "https://youtu.be", "http://m.youtube.com", "https://youtube.fr", "https://www.youtube-nocookie.com"],
         full=["watch", "embed", "v", "video", "shorts", "channel", "user", "c", "@handle", VID, VID + "extra", "short", "UCabcdefghijklmnopqrstuv",
-              "feed", "playlist", "results", "redirect", "about", "Name", ""],
-        reduced=["watch", "embed", "shorts", "channel", "user", "c", VID, "Name", "@handle"],
+              "feed", "playlist", "results", "redirect", "about", "Name", "", "@", "@@"],
+        reduced=["watch", "embed", "shorts", "channel", "user", "c", VID, "Name", "@handle", "@"],
         queries=["", "v=" + VID, "v=bad", "v=" + VID + "&list=PL1", "list=PL1", "v=" + VID + "&list=PL%26x%3D1", "list=PL%2523a&v=" + VID, "v=" + VID + "&list=PL%2526", "next=%2Fwatch%3Fv%3D" + VID, "next=%2Fwatch%3Fv%3Dx", "v=" + VID + "xyz",
                  "q=http%3A%2F%2Fx.org", "feature=share&v=" + VID, "next%3D%252Fwatch%253Fv%253Dzz", "v=", "V=" + VID,
                  "v=" + VID + "&list=", "list=", "list=&v=" + VID, "v", "feature=share&v", "v&list=PL1", "v&v=" + VID, "list", "list&v=" + VID, "&&v=" + VID + "&"],
